@@ -375,8 +375,15 @@ def r6(db, rep):
         nm = last_seg(h)
         if nm in ("rep_prefix", "repne_prefix"):
             continue
-        uses1 = any(x.get("k") == "Index" and (x["i"].get("v") or {}).get("int") == 1 for x in walk(db.hir[h]["body"]))
-        forms = list(itertools.product(("REG", "MEM", "IMM"), repeat=2 if uses1 else 1))
+        # the decoder fields the handler branches on (operand kinds), discovered from an unconstrained interpretation
+        plain = sh.run(h)
+        kind_paths = {}
+        for pth in plain.discr:
+            m_ = re.search(r"operands\[(\d)\]\.type_$", pth)
+            if m_:
+                kind_paths[int(m_.group(1))] = pth
+        nops = 2 if 1 in kind_paths else 1
+        forms = list(itertools.product(("REG", "MEM", "IMM"), repeat=nops))
         found = {}
         skipped = 0
         for form in forms:
@@ -385,7 +392,7 @@ def r6(db, rep):
             if inf and inf[0](f2):
                 skipped += 1
                 continue
-            asm = {("obj", "details(param0).operands[%d].type_" % k): OPT + t for k, t in enumerate(form)}
+            asm = {("obj", kind_paths[k]): OPT + t for k, t in enumerate(form) if k in kind_paths}
             res = sh.run(h, assume=asm)
             for x in c02.hazards(res, names, canon):
                 w, rd, wid, rid = x
@@ -405,7 +412,7 @@ def r6(db, rep):
 
 
 def short(i):
-    return i.replace("x86reg:details(param0).", "").replace("named:", "")
+    return re.sub(r"x86reg:[A-Za-z_]+\(param\d\)\.", "", i).replace("named:", "")
 
 
 CONV = {  # handler -> (written register, [(source register, bit)] per result bit, LSB first)
